@@ -38,13 +38,13 @@ type WorkItem struct {
 type PathStatus int
 
 const (
-	PathOK PathStatus = iota
-	PathPruned               // an Assume was infeasible
-	PathViolation            // an Assert failed (or an uncaught panic)
-	PathInconclusive         // solver could not decide an assertion
-	PathUnsupported          // engine limitation hit
-	PathUnwind               // step / decision budget exceeded
-	PathBlocked              // blocking operation that cannot proceed
+	PathOK           PathStatus = iota
+	PathPruned                  // an Assume was infeasible
+	PathViolation               // an Assert failed (or an uncaught panic)
+	PathInconclusive            // solver could not decide an assertion
+	PathUnsupported             // engine limitation hit
+	PathUnwind                  // step / decision budget exceeded
+	PathBlocked                 // blocking operation that cannot proceed
 )
 
 func (s PathStatus) String() string {
